@@ -16,7 +16,7 @@ from ..core import Stats, exc_site, exc_text
 from ..harness import Compiled, close, cs_compile, np_step
 from ..netgen import MODEL_PARAMS, all_specs, harness_specs
 from ..parallel import run_shards, shards_of
-from ..spec import NetSpec
+from ..spec import NetSpec, build
 from .. import refmodel, valgen
 
 PROP = "C01"
@@ -84,6 +84,20 @@ def check_spec(spec: NetSpec, label, st: Stats, plan):
             for b in ref.branches:
                 st.add_to("branches", b)
             compare(spec, nxt, ref, st, "numpy", case, problems)
+        # ---- read-mutate-read construction: every lookup is read after every construction call, so
+        # that a lookup left stale by a later call would feed the step with an outdated network
+        if full:
+            for vlabel, val in valgen.vectors(spec, 0):
+                st.inc("executions")
+                case = {"spec": spec.describe(), "config": label, "P": P, "val": {f"{k[0]}.{k[1]}": v for k, v in val.items()},
+                        "engine": "numpy", "touch": True}
+                try:
+                    nxt, built, raw = np_step(spec, val, P, built=build(spec, touch=True))
+                except Exception as e:  # noqa: BLE001
+                    problems.append((f"{PROP}/exception/{exc_site(e)}/{type(e).__name__}", f"numpy (lookups read during "
+                                     f"construction): {exc_text(e)}", case))
+                    break
+                compare(spec, nxt, refmodel.step(spec, val, P), st, "numpy (lookups read during construction)", case, problems)
         # ---- compiled CasADi function -------------------------------------------------
         for sym in plan["cs_sym"]:
             st.inc("transitions", 2)
@@ -224,7 +238,7 @@ def replay(case):
     problems = []
     ref = refmodel.step(spec, val, P)
     if case.get("engine", "numpy") == "numpy":
-        nxt, built, raw = np_step(spec, val, P)
+        nxt, built, raw = np_step(spec, val, P, built=build(spec, touch=bool(case.get("touch"))))
     else:
         F, built, eng = cs_compile(spec, case["engine"], P, compact=0)
         nxt = Compiled(F, built).eval_many([val])[0]
